@@ -1,6 +1,4 @@
-// Package props links every property package into the vcheck binary.
+// Package props links property packages into the vcheck binary. bin/check builds with the tag
+// prop_cNN so that only the property being checked is compiled in (a property package that does
+// not compile cannot break the others); bin/setup builds with all_props.
 package props
-
-import (
-	_ "verif/internal/c01"
-)
